@@ -28,6 +28,9 @@ type c01Case struct {
 	ReadDirFile bool                `json:"read_dir_file"`
 	RealFS      bool                `json:"real_fs,omitempty"`
 	MetaDirs    []string            `json:"meta_dirs,omitempty"`
+	// Tree2, when set, is scanned as a second (virtual) scan root in the same scan: every
+	// file is extracted once per scan root that reaches it.
+	Tree2 *memfs.Tree `json:"tree2,omitempty"`
 }
 
 // Known-finding classes of C01 (see KNOWN_FINDINGS.txt / DESIGN.md §7).
@@ -61,6 +64,16 @@ func genC01(realFS bool) func(t *rapid.T) c01Case {
 		if col.IsKnown(c01RootGitignore) && c.Cfg.UseGitignore && hasRootGitignore(c.Tree) {
 			col.Excluded(c01RootGitignore)
 			c.Cfg.UseGitignore = false
+		}
+		if !realFS && len(c.Cfg.PathsToExtract) == 0 && rapid.IntRange(0, 4).Draw(t, "second_root") == 0 {
+			t2 := genTree(t, treeOpts{MaxNodes: 12, MaxDepth: 3, Gitignore: true, Symlinks: true, Special: true})
+			if rapid.IntRange(0, 3).Draw(t, "same_tree_twice") == 0 {
+				t2 = c.Tree
+			}
+			c.Tree2 = &t2
+			if col.IsKnown(c01RootGitignore) && c.Cfg.UseGitignore && hasRootGitignore(t2) {
+				c.Cfg.UseGitignore = false
+			}
 		}
 		dirs := treeDirs(c.Tree)
 		if len(dirs) > 0 {
@@ -147,7 +160,28 @@ func propC01(c c01Case) (ev.Outcome, error) {
 		out = runScan(scalibrfs.RealFSScanRoots(absRoot), absCfg(c.Cfg, absRoot), c.Exts, nil)
 		o.Classes = append(o.Classes, "real_fs")
 	} else {
-		out = runScan(virtualRoot(mfs), c.Cfg, c.Exts, nil)
+		roots := virtualRoot(mfs)
+		if c.Tree2 != nil {
+			mfs2 := memfs.New(*c.Tree2, memfs.Options{ReadDirFile: c.ReadDirFile})
+			roots = append(roots, virtualRoot(mfs2)...)
+			exp2 := walkmodel.Expected(mfs2, c.Cfg, c.Exts)
+			exp.Calls = append(exp.Calls, exp2.Calls...)
+			sort.Slice(exp.Calls, func(i, j int) bool {
+				if exp.Calls[i].Path != exp.Calls[j].Path {
+					return exp.Calls[i].Path < exp.Calls[j].Path
+				}
+				return exp.Calls[i].Ext < exp.Calls[j].Ext
+			})
+			exp.DontCare = append(exp.DontCare, exp2.DontCare...)
+			for k, v := range exp2.Excluded {
+				exp.Excluded[k] += v
+			}
+			for k := range exp2.Fired {
+				exp.Fired[k] = true
+			}
+			o.Classes = append(o.Classes, "two_scan_roots")
+		}
+		out = runScan(roots, c.Cfg, c.Exts, nil)
 		if c.ReadDirFile {
 			o.Classes = append(o.Classes, "memfs_readdirfile")
 		} else {
@@ -207,7 +241,7 @@ func propC01(c c01Case) (ev.Outcome, error) {
 		return o, fmt.Errorf("AfterExtractorRun fired %d times for %d Extract calls", len(out.ExtRuns), len(out.Calls))
 	}
 	// exactly-once per reaching path holds also in don't-care cases when no paths are requested
-	if len(c.Cfg.PathsToExtract) == 0 {
+	if len(c.Cfg.PathsToExtract) == 0 && c.Tree2 == nil {
 		seen := map[string]bool{}
 		for _, g := range got {
 			k := g.Ext + "\x00" + g.Path
@@ -223,7 +257,7 @@ func propC01(c c01Case) (ev.Outcome, error) {
 		return o, fmt.Errorf("inventory is not the union of the Extract results: %s", d)
 	}
 	// (4) explicitly requesting a reached sub-directory = whole-tree scan restricted to it.
-	if len(c.MetaDirs) > 0 && !c.RealFS {
+	if len(c.MetaDirs) > 0 && !c.RealFS && c.Tree2 == nil {
 		base := c.Cfg
 		base.PathsToExtract, base.IgnoreSubDirs = nil, false
 		whole := out
